@@ -100,7 +100,7 @@ func (Prop) Size(tier string) int {
 	return 60000
 }
 func (Prop) Rule() string {
-	return "plan = script set of 1-5 scripts (each valid / unparsable / check-failing, 0-3 use() calls to members, itself or a missing name, at top level or inside if/for; biased to diamonds, repeated callees, self loops, 2- and 3-cycles, broken leaves under chains) loaded several times, each load under simulator-chosen visiting orders of the loader's map iterations; evaluation = one load; non-trivial = the set has at least one use edge and at least one load ran under a non-canonical order; distinct = hash of (set shape, orders drawn)"
+	return "plan = script set of 1-5 scripts (each valid / unparsable / check-failing, 0-3 use() calls to members, itself or a missing name, at top level or inside any statement context: if/elif/else, the three-clause for, for-in over list/map/string, after a conditional break/continue, nested; positional and keyword spelling; missing names incl. ones a path/case normalisation would map onto a member; biased to diamonds, repeated callees, self loops, 2- and 3-cycles, broken leaves under chains) loaded several times, each load under simulator-chosen visiting orders of the loader's map iterations; evaluation = one load; non-trivial = the set has at least one use edge and at least one load ran under a non-canonical order; distinct = hash of (set shape, orders drawn)"
 }
 func (Prop) Assumptions() []string {
 	return []string{
